@@ -1,6 +1,7 @@
 import GwModel.Drv.Codec
 import GwModel.Scrub
 import GwModel.Select
+import GwModel.Route
 import GwModel.Gen.Facts
 /-! gwdrv: one JSON object per line in, one per line out (DESIGN §2.2). Core + Lean.Data.Json only. -/
 open Lean Codec
@@ -14,6 +15,18 @@ def encPaths (ps : List (List String)) : Json :=
 def handle (j : Json) : Json :=
   match getStr j "op" with
   | "mono" => Json.mkObj [("data", encVal (Mono.mono (decCase j)))]
+  | "merge" => runMerge j
+  | "route" =>
+    -- {"sources":[{"url":..,"types":{T:[fields]}}],"internal":{...},"gwTypes":[..],"keys":[["T","f"],...]}
+    let decSrc (x : Json) : Route.Src :=
+      { url := getStr x "url", types := (match getObj? x "types" with | some t => (kvs t).map fun (k, v) => (k, (v.getArr?.toOption.getD #[]).toList.map fun y => y.getStr?.toOption.getD "") | none => []) }
+    let srcs := (getArr j "sources").map decSrc
+    let internal := match getObj? j "internal" with | some x => decSrc x | none => { url := "", types := [] }
+    let gw := strList j "gwTypes"
+    Json.mkObj ((getArr j "keys").map fun k =>
+      let t := (k.getArrVal? 0).toOption.bind (·.getStr?.toOption) |>.getD ""
+      let f := (k.getArrVal? 1).toOption.bind (·.getStr?.toOption) |>.getD ""
+      (t ++ "." ++ f, Json.arr ((Route.urlsFor srcs internal gw t f).map Json.str).toArray))
   | "scrub" =>
     let sel := Scrub.flatten ((getArr j "frags").map decFrag) ((getArr j "sels").map decSel)
     match Scrub.scrubPaths sel ((getArr j "plan").map decPStep) with
